@@ -390,3 +390,23 @@ def natural_key(name):
     import re
 
     return tuple(int(p) if p.isdigit() else p for p in re.split(r"(\d+)", name))
+
+
+class _StrAlg:
+    """Algebra whose variable values are their own names (for pure views: handle -> element names)."""
+
+    ok = True
+
+    def var(self, n):
+        return n
+
+    def const(self, c):
+        return 0.0
+
+    param = const
+
+
+def element_names(r):
+    """Names of the variables a pure view recipe (vvar / mvar / slices / rows / T / diag ...) selects,
+    as a nested list with the NumPy shape of the view."""
+    return Interp(_StrAlg()).ev(r)
